@@ -6,6 +6,7 @@ attribute) and additionally mutates list / nested / lazily created attributes, t
 deepcopy."""
 import json
 import random
+import struct
 from anysystem import Context, Message, Process
 
 
@@ -56,6 +57,9 @@ class ScriptProc(Process):
                 ctx.set_timer_once(parts[1], int(parts[2]) * 0.5)
             elif parts[0] == "C":
                 ctx.cancel_timer(parts[1])
+            elif parts[0] == "K":
+                # the clock the framework passed to this handler, as the bit pattern of the double
+                ctx.send_local(self._mk(holder, parts[1], struct.pack(">d", ctx.time()).hex()))
             elif parts[0] == "X":
                 raise RuntimeError("scripted failure")
 
